@@ -601,9 +601,29 @@ class Translator:
                 bad('`Vec::new()` whose element type is not known here', line)
             return [], '([] : %s)' % lt(expect), expect
         if path == ['Vec', 'with_capacity'] and len(args) == 1:
-            p, n, tn = self.ex(args[0], c)          # the capacity is evaluated (it can panic) and has no other effect
+            p, n, tn = self.ex(args[0], c)
             if expect not in ('OptNames',) or tn not in NUM:
                 bad('`Vec::with_capacity(..)` whose element type is not known here', line)
+            # the argument is not dropped (rs2lean_ints, "capacities"): checked `usize` arithmetic, then `n * size_of::<T>()`
+            # against isize::MAX - unless neither can happen (statically, adaptor fact LEN). `Option<&str>`: 16 bytes (64 bit)
+            esize = {'OptNames': 16}[expect]
+
+            def leaf(x):
+                if x[0] == 'mcall' and x[2] == 'len' and not x[3]:
+                    return ints.ISIZE_MAX
+                return None
+
+            def value(x):
+                px, vx, tx = self.ex(x, c)
+                if px or tx not in NUM:
+                    bad('capacity whose value can panic / of type %s' % (tx,), x[-1])
+                return vx
+            b = ints.cap_bound(args[0], leaf)
+            if b is None or b * esize > ints.ISIZE_MAX:
+                t1, t2 = self.fresh(), self.fresh()
+                p = p + [('opt', ints.cap_opt(args[0], value), self.site(c, 'capacity arithmetic overflow'), t1),
+                         ('opt', '(if %s * %d ≤ %d then some () else none)' % (t1, esize, ints.ISIZE_MAX),
+                          self.site(c, 'capacity overflow'), t2)]
             return p, '([] : %s)' % lt(expect), expect
         if path == ['SyntaxConfig', 'default'] and not args:
             return [], 'syntaxcDefault', 'Syntaxc'
